@@ -23,7 +23,7 @@ def _q(p, n):
 
 
 class Received:
-    __slots__ = ('t', 'step', 'conn', 'msg', 'xml', 'action', 'body', 'idx', 'raw_len', 'behaviour')
+    __slots__ = ('t', 'step', 'conn', 'msg', 'xml', 'action', 'body', 'idx', 'raw_len', 'behaviour', 'sent_t', 'sent_step')
 
     def __repr__(self):
         return f'<Received #{self.idx} t={self.t:.3f} action={self.action}>'
@@ -76,6 +76,7 @@ class Endpoint:
     def _serve(self, sock, cidx):
         s = S.SCHED
         buf = bytearray()
+        off = 0
         while True:
             try:
                 msg, buf = httpmsg.read_from_socket(sock, True, buf)
@@ -86,6 +87,15 @@ class Endpoint:
             rec = Received()
             rec.t, rec.step, rec.conn, rec.msg = s.now, s.steps, cidx, msg
             rec.raw_len = msg.consumed
+            # when did the sender put the first byte of this request on the wire?
+            rec.sent_t, rec.sent_step = rec.t, rec.step
+            acc = 0
+            for wt, wstep, data in getattr(sock.conn.c2s, 'rec', ()):
+                acc += len(data)
+                if acc > off:
+                    rec.sent_t, rec.sent_step = wt, wstep
+                    break
+            off += msg.consumed or 0
             rec.xml = rec.action = rec.body = None
             try:
                 body = httpmsg.decode_body(msg)
@@ -109,6 +119,10 @@ class Endpoint:
                     body = beh[2] if len(beh) > 2 else b''
                     sock.sendall(httpmsg.mk_response(beh[1], 'Error' if beh[1] >= 400 else 'Ok', body))
                     N.NET.count(f'http_{beh[1]}')
+                elif kind == 'slow':
+                    N.NET.count('slow_response')
+                    s.sleep(beh[1])
+                    sock.sendall(httpmsg.mk_response(200, 'Ok', b''))
                 elif kind == 'reset_before_response':
                     N.NET.count('reset_before_response')
                     sock.conn.reset()
@@ -145,6 +159,7 @@ class RawClient:
         self.timeout = timeout
         self.sock = None
         self.buf = bytearray()
+        self.resp_sent = None
 
     def _connect(self):
         prev = S.SCHED.current.node
@@ -180,10 +195,14 @@ class RawClient:
                 self._connect()
                 fresh = True
             try:
+                n0 = len(self.sock.conn.s2c.rec)
+                conn = self.sock.conn
                 self.sock.sendall(req)
                 resp, self.buf = httpmsg.read_from_socket(self.sock, False, self.buf)
                 if resp is None:
                     raise ConnectionResetError('connection closed before response')
+                # (virtual time, scheduler step) at which the server wrote the first byte of this response
+                self.resp_sent = conn.s2c.rec[n0][:2] if len(conn.s2c.rec) > n0 else None
                 if (resp.header('connection') or '').lower() == 'close':
                     self.close()
                 return resp
